@@ -91,9 +91,9 @@ def join_tokens(table, toks, n):
 
 def c07_tokens3(toks: Tuple[int, int, int], n: int) -> bool:
     """
+    pre: pinned(n=n, t0=toks[0], t1=toks[1])
     pre: 0 <= n <= 3
     pre: all(0 <= toks[i] < NTOK3 and (i < n or toks[i] == 0) for i in range(3))
-    pre: pinned(n=n, t0=toks[0], t1=toks[1])
     post: _
     """
     raw = (toks, n)
@@ -103,8 +103,8 @@ def c07_tokens3(toks: Tuple[int, int, int], n: int) -> bool:
 
 def c07_tokens4(toks: Tuple[int, int, int, int]) -> bool:
     """
-    pre: all(0 <= toks[i] < 10 for i in range(4))
     pre: pinned(t0=toks[0], t1=toks[1])
+    pre: all(0 <= toks[i] < 10 for i in range(4))
     post: _
     """
     raw = (toks,)
@@ -117,9 +117,9 @@ TOK_D = [".", "a", "[^a]", "\\s", "\\w", "*", "|", "[^\\d]"]
 
 def c07_wide(toks: Tuple[int, int], n: int) -> bool:
     """
+    pre: pinned(n=n, t0=toks[0])
     pre: 1 <= n <= 2
     pre: all(0 <= toks[i] < 8 and (i < n or toks[i] == 0) for i in range(2))
-    pre: pinned(n=n, t0=toks[0])
     post: _
     """
     raw = (toks, n)
@@ -132,9 +132,9 @@ ALPHA_S = "ab|*+?()[]^-{}1,\\."
 
 def c07_chars(s: str) -> bool:
     """
+    pre: pinned(n=len(s), first=s[:1])
     pre: len(s) <= MAXLEN
     pre: all(c in ALPHA_S for c in s)
-    pre: pinned(n=len(s), first=s[:1])
     post: _
     """
     p = chx.R(s)     # the pattern reaches re.compile (C code) first: the solver realises it here
